@@ -18,7 +18,7 @@ FUNCTIONS = [BatchPlanning.generate_plan, Planner.run, WorkflowPlan.get_task_pre
              Planning._create_observation_task_id, Planning._calc_workflow_est]
 META = {
     'bounds': {'C14.nodes': '1..3 (quick), 1..4 (thorough); every DAG shape over them (adjacency bits i<j symbolic)',
-               'C14.labels': 'node labels permuted (identity + reversed quick; all permutations thorough)',
+               'C14.edge insertion order': 'ascending pairs, and reversed for 3 nodes', 'C14.labels': 'node labels permuted (identity + reversed quick; all permutations thorough)',
                'C14.comp/task_data/edge volumes': 'unbounded ints', 'C14.names': NAMES, 'C14.clock': [0, 7]},
     'outside_bounds': ['DAGs with more than 4 nodes', 'non-integer node labels', 'the SHADOW static planner (not installed)'],
     'stubs': ['BatchPlanning._workflow_to_nx returns the symbolic nx.DiGraph instead of reading a JSON file (E5)'],
@@ -34,12 +34,13 @@ def build_graph(n, labels, bits, comps, has_td, tds, vols):
             g.add_node(labels[i], comp=comps[i], task_data=tds[i])
         else:
             g.add_node(labels[i], comp=comps[i])
-    k = 0
-    for (i, j) in PAIRS4:
+    order = list(enumerate(PAIRS4))
+    if PIN.get('rev_edges'):
+        order.reverse()          # edges inserted in the opposite order (adjacency lists are kept in insertion order)
+    for k, (i, j) in order:
         if i < n and j < n:
             if bits[k]:
                 g.add_edge(labels[i], labels[j], transfer_data=vols[k])
-        k += 1
     return g
 
 
@@ -160,11 +161,14 @@ def shards(tier, prop):
         cfgs = [(1, [0, 1, 2, 3], 0, 0), (2, [1, 0, 2, 3], 0, 7), (3, [0, 1, 2, 3], 0, 0), (3, [2, 1, 0, 3], 5, 7)]
         for n, perm, base, clock in cfgs:
             out.append({'fn': 'plan_ok', 'pin': {'n': n, 'perm': perm, 'base': base, 'clock': clock}, 'cond_timeout': 150})
+        out.append({'fn': 'plan_ok', 'pin': {'n': 3, 'perm': [0, 1, 2, 3], 'base': 0, 'clock': 0, 'rev_edges': True}, 'cond_timeout': 150})
     else:
         for n in (1, 2, 3, 4):
             for perm in itertools.permutations(range(n)):
                 perm = list(perm) + list(range(n, 4))
                 out.append({'fn': 'plan_ok', 'pin': {'n': n, 'perm': perm, 'base': 0, 'clock': 7 if n % 2 else 0, 'no_td': n == 4},
                             'cond_timeout': 1500})
+                if n == 3:
+                    out.append({'fn': 'plan_ok', 'pin': {'n': n, 'perm': perm, 'base': 0, 'clock': 0, 'rev_edges': True}, 'cond_timeout': 1500})
     out.append({'fn': 'plan_ok', 'pin': {'n': 2, 'perm': [0, 1, 2, 3], 'base': 0, 'clock': 0}, 'cond_timeout': 30, 'twin': True})
     return out
